@@ -285,6 +285,7 @@ func describeLin(h []porcupine.Operation, info porcupine.LinearizationInfo) stri
 
 func genLinCase(r *kit.Rand, tier string) LinCase {
 	c := LinCase{Sched: kit.GenSched(r, kit.PickOf(r, "conc", "conc", "dense")), Knobs: kit.GenKnobs(r), NKeys: r.Range(1, 4), ValPad: kit.PickOf(r, 8, 60, 200), Restart: r.Bool(0.5)}
+	c.Knobs.DiskUs = kit.PickOf(r, 0, 0, 100, 1000) // calls take virtual time: they overlap with timers and each other
 	c.Sched.MaxVirtS = 3600
 	c.Knobs.MemTableSize = kit.PickOf(r, int64(256), 256, 512, 1024, 4096)
 	c.Knobs.CompactionInterval = 1
